@@ -201,7 +201,7 @@ func rewrite(path, relDir string, counts map[string]int) ([]byte, error) {
 		if !ok {
 			return true
 		}
-		if p, name, ok := pkgSel(se); ok && p == "sync" && (name == "Mutex" || name == "RWMutex") {
+		if p, name, ok := pkgSel(se); ok && p == "sync" && (name == "Mutex" || name == "RWMutex" || name == "Pool") {
 			se.X = ast.NewIdent("simhook")
 			used = true
 			removedUse["sync"] = true
@@ -245,6 +245,10 @@ func rewrite(path, relDir string, counts map[string]int) ([]byte, error) {
 		}
 		return true
 	})
+	resetSrc := resetStmts(fset, f, path, counts)
+	if resetSrc != "" {
+		used = true
+	}
 	if used {
 		added := false
 		for _, d := range f.Decls {
@@ -265,7 +269,148 @@ func rewrite(path, relDir string, counts map[string]int) ([]byte, error) {
 	if !used {
 		return buf.Bytes(), nil
 	}
+	if resetSrc != "" {
+		buf.WriteString("\n// simgen: package-level state goes back to its initial value between simulated runs\n// (one run stands for one fresh process)\nfunc init() {\n\tsimhook.RegisterReset(func() {\n" + resetSrc + "\t})\n}\n")
+	}
 	return pruneImports(buf.Bytes(), removedUse)
+}
+
+// initAssigned lists, per directory, the package-level names that an init() function of the
+// package assigns or takes the address of: those are not touched by the generated reset.
+var initAssignedCache = map[string]map[string]bool{}
+
+func initAssigned(dir string) map[string]bool {
+	if m, ok := initAssignedCache[dir]; ok {
+		return m
+	}
+	m := map[string]bool{}
+	initAssignedCache[dir] = m
+	ents, _ := os.ReadDir(dir)
+	fset := token.NewFileSet()
+	for _, e := range ents {
+		if e.IsDir() || !strings.HasSuffix(e.Name(), ".go") || strings.HasSuffix(e.Name(), "_test.go") {
+			continue
+		}
+		f, err := parser.ParseFile(fset, filepath.Join(dir, e.Name()), nil, 0)
+		if err != nil {
+			continue
+		}
+		for _, d := range f.Decls {
+			fd, ok := d.(*ast.FuncDecl)
+			if !ok || fd.Recv != nil || fd.Name.Name != "init" || fd.Body == nil {
+				continue
+			}
+			ast.Inspect(fd.Body, func(n ast.Node) bool {
+				switch x := n.(type) {
+				case *ast.AssignStmt:
+					for _, l := range x.Lhs {
+						if id, ok := l.(*ast.Ident); ok {
+							m[id.Name] = true
+						}
+					}
+				case *ast.UnaryExpr:
+					if id, ok := x.X.(*ast.Ident); ok && x.Op == token.AND {
+						m[id.Name] = true
+					}
+				}
+				return true
+			})
+		}
+	}
+	return m
+}
+
+// resetStmts returns Go statements that put the file's package-level variables back to their
+// initial values, for the kinds of variable where that is plainly what a fresh process would
+// hold: constructor calls of caches/maps, composite literals, literals, and zero values.
+// Generated files, metrics collectors, locks, embedded files and anything an init() function
+// sets up are left alone.
+func resetStmts(fset *token.FileSet, f *ast.File, path string, counts map[string]int) string {
+	if strings.HasSuffix(path, ".pb.go") {
+		return ""
+	}
+	for _, cg := range f.Comments {
+		if cg.Pos() < f.Package && strings.Contains(cg.Text(), "Code generated") {
+			return ""
+		}
+	}
+	skip := initAssigned(filepath.Dir(path))
+	show := func(n ast.Node) string {
+		var b bytes.Buffer
+		format.Node(&b, fset, n)
+		return b.String()
+	}
+	allowedInit := func(e ast.Expr) bool {
+		switch x := e.(type) {
+		case *ast.BasicLit:
+			return true
+		case *ast.Ident:
+			return x.Name == "nil" || x.Name == "true" || x.Name == "false"
+		case *ast.CompositeLit:
+			return true
+		case *ast.UnaryExpr:
+			_, ok := x.X.(*ast.CompositeLit)
+			return ok && x.Op == token.AND
+		case *ast.CallExpr:
+			if id, ok := x.Fun.(*ast.Ident); ok && (id.Name == "make" || id.Name == "new") {
+				return true
+			}
+			if se, ok := x.Fun.(*ast.SelectorExpr); ok {
+				if id, ok := se.X.(*ast.Ident); ok && id.Name == "cache" && se.Sel.Name == "New" {
+					return true
+				}
+			}
+		}
+		return false
+	}
+	var sb strings.Builder
+	for _, d := range f.Decls {
+		gd, ok := d.(*ast.GenDecl)
+		if !ok || gd.Tok != token.VAR {
+			continue
+		}
+		if gd.Doc != nil && strings.Contains(gd.Doc.Text()+show(gd.Doc), "go:embed") {
+			continue
+		}
+		for _, sp := range gd.Specs {
+			vs := sp.(*ast.ValueSpec)
+			if vs.Doc != nil && strings.Contains(show(vs.Doc), "go:embed") {
+				continue
+			}
+			typ := ""
+			if vs.Type != nil {
+				typ = show(vs.Type)
+			}
+			if strings.Contains(typ, "Mutex") || strings.Contains(typ, "prometheus") || strings.Contains(typ, "chan ") {
+				continue
+			}
+			for i, n := range vs.Names {
+				if n.Name == "_" || skip[n.Name] {
+					continue
+				}
+				switch {
+				case len(vs.Values) == len(vs.Names):
+					if !allowedInit(vs.Values[i]) {
+						continue
+					}
+					v := show(vs.Values[i])
+					if strings.Contains(v, "Mutex") || strings.Contains(v, "prometheus") {
+						continue
+					}
+					if typ != "" {
+						fmt.Fprintf(&sb, "\t\t{\n\t\t\tvar z %s = %s\n\t\t\t%s = z\n\t\t}\n", typ, v, n.Name)
+					} else {
+						fmt.Fprintf(&sb, "\t\t%s = %s\n", n.Name, v)
+					}
+					counts["reset.var"]++
+				case len(vs.Values) == 0 && typ != "":
+					fmt.Fprintf(&sb, "\t\t{\n\t\t\tvar z %s\n\t\t\t%s = z\n\t\t}\n", typ, n.Name)
+					counts["reset.zero"]++
+				}
+			}
+		}
+	}
+	return sb.String()
 }
 
 // pruneImports drops only imports that simgen itself may have made unused.
